@@ -203,6 +203,13 @@ func buildAlphabets() {
 			hvals = append(hvals, mkAval(all[idx], ti, fmt.Sprintf("%s#%d", r.T, idx), k < len(r.Quick)))
 		}
 	}
+	// two pointers to containers: passed twice in one list, the second is written as a reference to the
+	// first, whatever Go type the first was read into (the "iface-first" shape reads it into an interface{})
+	for _, x := range []interface{}{&[]int{1, 2, 3}, &map[string]int{"x": 1}} {
+		v := reflect.ValueOf(x)
+		htypes = append(htypes, v.Type())
+		hvals = append(hvals, mkAval(v, len(htypes)-1, v.Type().String()+"#0", true))
+	}
 	for ti, r := range jsonReps() {
 		jtypes = append(jtypes, r.t)
 		for k, x := range r.vals {
@@ -418,14 +425,14 @@ var errCases = []errCase{
 // ---- shapes ----
 
 var reqShapes = []string{"exact", "iface", "conv", "ptr", "fewer-params", "more-params", "variadic-one", "variadic-all",
-	"variadic-empty", "variadic-iface", "variadic-iface-tail", "missing", "variadic-short"}
+	"variadic-empty", "variadic-iface", "variadic-iface-tail", "missing", "variadic-short", "iface-first"}
 
 // reqShapesIface are the shapes in which some argument lands in an interface{} destination (so that the
 // decoder settings matter for the arguments).
-var reqShapesIface = map[string]bool{"iface": true, "fewer-params": true, "variadic-iface": true, "variadic-iface-tail": true, "missing": true}
+var reqShapesIface = map[string]bool{"iface": true, "fewer-params": true, "variadic-iface": true, "variadic-iface-tail": true, "missing": true, "iface-first": true}
 
-var respShapes = []string{"exact", "iface", "conv", "ptr", "fewer-types", "more-types", "none"}
-var respShapesIface = map[string]bool{"iface": true}
+var respShapes = []string{"exact", "iface", "conv", "ptr", "fewer-types", "more-types", "none", "iface-first"}
+var respShapesIface = map[string]bool{"iface": true, "iface-first": true}
 
 func shapeIndex(list []string, s string) int {
 	for i, x := range list {
@@ -572,6 +579,14 @@ func reqShape(shape string, args []*aval, json bool) (si shapeInfo) {
 	case "missing":
 		si.missing = true
 		si.dest = make([]reflect.Type, n)
+	case "iface-first":
+		// the first parameter an interface{}, the others exact: where the list holds one value twice (a
+		// pointer, a map), the second is a reference to an item that was read into another Go type
+		si.ok = n >= 2
+		if si.ok {
+			si.params = append([]reflect.Type{tIface}, ex[1:]...)
+			si.dest = si.params
+		}
 	default:
 		panic("c07: unknown request shape " + shape)
 	}
@@ -623,6 +638,11 @@ func respShape(shape string, res []*aval, json bool) (si shapeInfo) {
 	case "none":
 		si.ok = n >= 1
 		si.params = nil
+	case "iface-first":
+		si.ok = n >= 2
+		if si.ok {
+			si.params = append([]reflect.Type{tIface}, ex[1:]...)
+		}
 	default:
 		panic("c07: unknown response shape " + shape)
 	}
